@@ -38,7 +38,7 @@ Section ItemPrice.
 
   (* ExchangeRate.Convert *)
   Definition rate_convert (x : xrate) (a : amount) : result amount price_err :=
-    bind (zero_of (x_to x)) (fun z => Ok (rescale (mul a (x_amount x)) (exp z))).
+    bind (zero_of (x_to x)) (fun z => Ok (rescale (mul (match_precision a z) (x_amount x)) (exp z))).
 
   (* currency.Convert *)
   Definition convert (rates : list (option xrate)) (from to : code) (a : amount) : result (option amount) price_err :=
